@@ -68,6 +68,16 @@ HasCal(pt) == pt.cal.default.k # "none" \/ Len(pt.cal.context) > 0
 NumKind(enc) == IF enc.k = "int" THEN "int" ELSE IF enc.fmt = "ieee" THEN "ieee" ELSE "mil"
 NumEnc(enc) == IF enc.k = "int" THEN enc.enc ELSE "float"
 
+\* TRUE when calibrating the raw value is not known to succeed (no verdict then): value outside the small domain, undecided
+\* context criteria, or a calibrator that rejects the value
+CalFails(pt, env, rawS) ==
+    IF ~HasCal(pt) THEN FALSE
+    ELSE IF rawS.t = "wide" THEN TRUE
+    ELSE LET s == Select(pt.cal, env, rawS) IN
+         IF s.k = "undef" THEN TRUE
+         ELSE IF s.k = "none" THEN FALSE
+         ELSE Apply(s.cal, RatOf(rawS)).k = "err"
+
 DecodeNumeric(pt, env, p) ==
     LET w == pt.enc.w IN
     IF p + w > NBits THEN [k |-> "poison"]            \* the field extends past the end of the packet
@@ -85,7 +95,9 @@ DecodeNumeric(pt, env, p) ==
                              ELSE IF ~IsPow2(Norm(a.r)[2]) THEN [k |-> "undef"]
                              ELSE [k |-> "val", val |-> WideOfFlt(TF(a.r)), raw |-> rawW, cls |-> "Float", adv |-> w]
               [] pt.kind = "enum" ->
-                   IF HasCal(pt) THEN [k |-> "undef"]       \* decided by C08's domain, not here
+                   \* enumerations and booleans are derived from the RAW value; calibrators declared on their encoding are applied
+                   \* by the decoder first and only matter when they fail (then any outcome is accepted, as in C08)
+                   IF CalFails(pt, env, rawS) THEN [k |-> "undef"]
                    ELSE IF rawS.t = "wide" THEN [k |-> "err"]
                    ELSE LET S == {pt.enum[i] : i \in 1 .. Len(pt.enum)}
                             m == {e \in S : REq(RatOf(e.raw), RatOf(rawS))}
@@ -93,7 +105,7 @@ DecodeNumeric(pt, env, p) ==
                            ELSE [k |-> "val", val |-> [t |-> "str", s |-> (CHOOSE e \in m : TRUE).label], raw |-> rawW,
                                  cls |-> "Str", adv |-> w]
               [] pt.kind = "bool" ->
-                   IF HasCal(pt) THEN [k |-> "undef"]
+                   IF CalFails(pt, env, rawS) THEN [k |-> "undef"]
                    ELSE LET truthy == IF rawW.t = "int" THEN rawW.mag # <<>> ELSE rawW.cls # "zero"
                         IN [k |-> "val", val |-> [t |-> "bool", n |-> IF truthy THEN 1 ELSE 0], raw |-> rawW, cls |-> "Bool", adv |-> w]
 
